@@ -12,8 +12,11 @@ VERIF = os.path.dirname(os.path.dirname(os.path.dirname(os.path.abspath(__file__
 LEAN = os.path.join(VERIF, "lean")
 REPO = os.environ.get("NSG_REPO", "/repo")
 DRIVER = os.path.join(LEAN, ".lake", "build", "bin", "driver")
-EVIDENCE = os.path.join(VERIF, "evidence")
-REPLAYS = os.path.join(VERIF, "replays")          # written at run time (ignored by git)
+# evidence/ describes runs against /repo itself; a run against any other tree (developer runs on scratch worktrees with a
+# seeded change applied) writes its evidence and replays to a scratch directory instead
+_SCRATCH = None if os.path.realpath(REPO) == "/repo" else os.path.join("/tmp", "nsgverif-scratch", os.path.basename(os.path.realpath(REPO)))
+EVIDENCE = os.environ.get("NSG_EVIDENCE_DIR") or (os.path.join(VERIF, "evidence") if _SCRATCH is None else os.path.join(_SCRATCH, "evidence"))
+REPLAYS = os.environ.get("NSG_REPLAY_DIR") or (os.path.join(VERIF, "replays") if _SCRATCH is None else os.path.join(_SCRATCH, "replays"))   # written at run time (ignored by git)
 ALLOWED_AXIOMS = {"propext", "Classical.choice", "Quot.sound"}
 FORBIDDEN = re.compile(r"\b(sorry|admit|native_decide|bv_decide|implemented_by|maxHeartbeats 0)\b|^axiom |\bunsafe ")
 
@@ -182,6 +185,12 @@ def _lean_gate(modules, need_driver=True):
         return False, info
     a = audit(modules)
     info.update(a)
+    if os.environ.get("NSG_TIER") == "thorough" and not a["failures"]:
+        # thorough tier: the toolchain's independent re-checker replays the compiled modules through the kernel
+        rc, out = run(["lake", "env", "leanchecker"] + list(modules), cwd=LEAN)
+        info["leanchecker"] = "ok" if rc == 0 else out[-400:]
+        if rc != 0:
+            a["failures"].append("leanchecker rejects the compiled modules: " + out[-300:])
     return not a["failures"], info
 
 
